@@ -184,6 +184,10 @@ func (f *function) diffEnv() (bool, string, diff.ValueDiff, error) {
 
 	var reason string
 	switch len(reasons) {
+	case 0:
+		// The environments differ only in a part that has no name here (for instance a record
+		// written by another version, or a damaged one).
+		reason = "function environment"
 	case 1:
 		reason = reasons[0]
 	case 2:
